@@ -19,7 +19,7 @@ def one(d):
         p = subprocess.run([os.path.join(ROOT, "check"), c, "quick"], cwd=ROOT, env=env, stdout=subprocess.PIPE, stderr=subprocess.STDOUT)
         res.append((c, p.returncode))
     subprocess.run("git -C /repo worktree remove --force %s; git -C /repo worktree prune; rm -rf %s" % (w, s), shell=True)
-    silent = meta.get("expected_verdict") == "silent"
+    silent = meta.get("expected_verdict") in ("silent", "MISSED")  # MISSED: the older spelling (judged not a violation, or a documented limit)
     good = all(rc == 0 for _, rc in res) if silent else any(rc == 1 for _, rc in res)
     return name, " ".join("%s:%d" % x for x in res) + (" (expected silent)" if silent else ""), good
 a = sys.argv[1:]; jobs = 3; SEED = "1"; pats = []
